@@ -12,6 +12,7 @@
 package c14
 
 import (
+	"encoding/json"
 	"errors"
 	"fmt"
 	"math"
@@ -667,6 +668,10 @@ func (w *world) observe(what string) {
 	}
 	if w.fbCompleteEv != w.failbacks || int(fbk) != w.failbacks {
 		w.obs["obs_failback_event_or_stat_mismatch"]++ // not part of the statement: observation only
+		if os.Getenv("C14_DEBUG") != "" && w.obs["obs_failback_event_or_stat_mismatch"] == 1 {
+			b, _ := json.MarshalIndent(w.witness(), "", " ")
+			fmt.Printf("DEBUG failback mismatch events=%d stat=%d observed=%d\n%s\n", w.fbCompleteEv, fbk, w.failbacks, b)
+		}
 	}
 	_ = i // 'initiated' is not constrained by the statement; its final value is reported as an observation in flush
 
@@ -964,7 +969,7 @@ func TestBFS(t *testing.T) {
 		t.Skip("runs in the non-race child process")
 	}
 	depth := run.Pick(6, 8)
-	capFrontier := run.Pick(1500, 12000)
+	capFrontier := run.Pick(4000, 15000)
 	col.Extra("bfs_depth", depth)
 	col.Extra("bfs_frontier_cap", capFrontier)
 	truncated := false
@@ -973,6 +978,7 @@ func TestBFS(t *testing.T) {
 		seen := map[string]bool{}
 		frontier := [][]op{{}}
 		sampled := false
+		pruned := 0
 		for d := 1; d <= depth; d++ {
 			var cands [][]op
 			for _, f := range frontier {
@@ -985,7 +991,12 @@ func TestBFS(t *testing.T) {
 			parallelRun(t, len(cands), func(wt *testing.T, i int) { res[i] = runSeq(wt, c, cands[i], "bfs") })
 			var next [][]op
 			for i, s := range cands {
-				if !seen[res[i].fp] {
+				if res[i].nViol > 0 {
+					// a sequence that already produced a witness is not extended (in the unchanged tree
+					// these are the dead ends behind the listed findings); exploration effort goes to
+					// the sequences on which every clause still holds
+					pruned++
+				} else if !seen[res[i].fp] {
 					seen[res[i].fp] = true
 					next = append(next, s)
 				}
@@ -994,7 +1005,7 @@ func TestBFS(t *testing.T) {
 					col.Sample(map[string]any{"kind": "bfs", "config": c.String(), "ops": opsString(s), "end_fingerprint": res[i].fp})
 				}
 			}
-			if len(next) > capFrontier {
+			if d < depth && len(next) > capFrontier {
 				truncated = true
 				rng := run.SubRand("bfs-trunc", ci*100+d)
 				rng.Shuffle(len(next), func(i, j int) { next[i], next[j] = next[j], next[i] })
@@ -1007,6 +1018,7 @@ func TestBFS(t *testing.T) {
 			col.Distinct("bfs_fingerprints", c.Name+"|"+fp)
 		}
 		col.Count("bfs_distinct_fingerprints", len(seen))
+		col.Count("bfs_sequences_not_extended_after_witness", pruned)
 	}
 	col.Extra("bfs_frontier_truncated", truncated)
 }
